@@ -50,6 +50,17 @@ type Agent struct {
 	unlock    func() // releases the lock on the DAG file
 
 	lock sync.RWMutex
+	// statusLock makes "take the current status and record it" one step, so
+	// that a status taken earlier is never recorded after a later one.
+	statusLock sync.Mutex
+}
+
+// recordStatus writes the current status to the history.
+func (a *Agent) recordStatus() (*model.Status, error) {
+	a.statusLock.Lock()
+	defer a.statusLock.Unlock()
+	status := a.Status()
+	return status, a.historyStore.Write(status)
 }
 
 // Options is the configuration for the Agent.
@@ -138,7 +149,7 @@ func (a *Agent) Run(ctx context.Context) error {
 		}
 	}()
 
-	if err := a.historyStore.Write(a.Status()); err != nil {
+	if _, err := a.recordStatus(); err != nil {
 		a.logger.Error("Failed to write status", "error", err)
 	}
 
@@ -177,8 +188,8 @@ func (a *Agent) Run(ctx context.Context) error {
 	defer close(done)
 	go func() {
 		for node := range done {
-			status := a.Status()
-			if err := a.historyStore.Write(status); err != nil {
+			status, err := a.recordStatus()
+			if err != nil {
 				a.logger.Error("Failed to write status", "error", err)
 			}
 			if err := a.reporter.reportStep(a.dag, status, node); err != nil {
@@ -194,7 +205,7 @@ func (a *Agent) Run(ctx context.Context) error {
 		if a.finished.Load() {
 			return
 		}
-		if err := a.historyStore.Write(a.Status()); err != nil {
+		if _, err := a.recordStatus(); err != nil {
 			a.logger.Error("Status write failed", "error", err)
 		}
 	}()
@@ -204,9 +215,9 @@ func (a *Agent) Run(ctx context.Context) error {
 	lastErr := a.scheduler.Schedule(dagCtx, a.graph, done)
 
 	// Update the finished status to the history database.
-	finishedStatus := a.Status()
+	finishedStatus, err := a.recordStatus()
 	a.logger.Info("Workflow execution finished", "status", finishedStatus.Status)
-	if err := a.historyStore.Write(a.Status()); err != nil {
+	if err != nil {
 		a.logger.Error("Status write failed", "error", err)
 	}
 
